@@ -1876,6 +1876,11 @@ pub fn e4_runs(ctx: &Ctx, name: &str, st: &mut Local, f: Sink) {
 
 /// E2s: multi-block streams in which later blocks reference bytes of earlier stored / huffman blocks
 pub fn e2_crossblock(ctx: &Ctx, name: &str, st: &mut Local, f: Sink) {
+    e2_crossblock_sel(ctx, name, st, f, false)
+}
+
+/// `light`: only the first eleven cases (for checks that run thousands of executions per stream)
+pub fn e2_crossblock_sel(ctx: &Ctx, name: &str, st: &mut Local, f: Sink, light: bool) {
     if !ctx.engine_on(name) {
         return;
     }
@@ -1942,6 +1947,10 @@ pub fn e2_crossblock(ctx: &Ctx, name: &str, st: &mut Local, f: Sink) {
         blocks.push(Block::Fixed { toks: vec![] });
         cases.push(("33000 x (one-literal fixed block + empty stored block), the pattern of a sync flush per byte".into(), blocks));
     }
+    if light {
+        cases.truncate(11);
+    }
+    let ncases = cases.len();
     let mut idx = 0u64;
     for (d, blocks) in cases {
         let i = idx;
@@ -1961,7 +1970,7 @@ pub fn e2_crossblock(ctx: &Ctx, name: &str, st: &mut Local, f: Sink) {
         deliver(ctx, name, st, i, case, f);
     }
     let e = st.eng(name);
-    e.bound = "7 single-block streams with more than 65535 occurrences of one symbol (counts wrapping to 0, 3 and 5 next to mid-sized counts); 5 streams with 65535 .. 66001 blocks; 8 multi-block streams: a stored block (text / noise) followed by a fixed or dynamic block whose references reach into the stored bytes, with and without a leading huffman block".into();
+    e.bound = if light { format!("the first {} of: ", ncases) } else { String::new() } + "7 single-block streams with more than 65535 occurrences of one symbol (counts wrapping to 0, 3 and 5 next to mid-sized counts); 5 streams with 65535 .. 66001 blocks; 8 multi-block streams: a stored block (text / noise) followed by a fixed or dynamic block whose references reach into the stored bytes, with and without a leading huffman block";
     e.exhaustive = true;
 }
 
